@@ -12,7 +12,7 @@ CHECKS = {
    text="Held on the executions observed: every observation of every replica in every replay twin of the seeded histories is entered into a per-history table keyed by the entry set; a later observation with the same entry set but different heads / value sequence / manifest fires at the first divergent intermediate state. Exploration is the right level: the quantifier ranges over unbounded histories and merge orders, which a monitor can only sample densely.",
    note="Trusts the harness block store, deterministic key derivation (hash-reproducible twins) and the 60-line reference model; histories bounded (<=6 replicas, <=80 steps)."),
  "C02": dict(cat="exploration", ref="§3 C02", tech="runtime monitor: heads recomputed by a reference model after every step of seeded histories",
-   text="After every step of every seeded history Heads(), RawHeads(), ToSnapshot().Heads and ToJSONLog().Heads are compared with the set of unreferenced entries recomputed from GetEntries(). Sampling of reachable states; no proof.",
+   text="After every step of every seeded history Heads(), RawHeads(), ToSnapshot().Heads and ToJSONLog().Heads are compared with the set of unreferenced entries recomputed from GetEntries(). Histories include refused operations, forks, merges from length-limited loads (logs with gaps) and offered histories holding an entry of another log id. Sampling of reachable states; no proof.",
    note="Trusts the reference model's 10-line heads function and the harness store."),
  "C03": dict(cat="exploration", ref="§3 C03", tech="runtime monitor: sequence oracle (dup-free, complete, causal, strictly sorted, equals model linearisation) on every state",
    text="Every state of seeded histories and of shape-directed DAGs (wide forks, diamond ladders, combs, equal-time heads) under three total orderings is checked on Values(), ToSnapshot().Values and ToString().",
@@ -61,7 +61,7 @@ CHECKS = {
    text="Every block write of seeded histories is checked for causal closure with the codec in use; every returned manifest / entry hash / head list is reloaded from the store prefix at its return and from later prefixes (thorough: every later prefix) and compared (log id, entries, heads, values) with the state recorded at that moment; failed writes must fail the operation and leave the log unchanged.",
    note="Crash = loss of all block writes after a prefix; single block writes are atomic. Reload clauses under default and link codecs; closure assertion under all three."),
  "C18": dict(cat="exploration", ref="§3 C18", tech="runtime monitor: byte-pattern search on raw blocks captured at Add time (8 encodings per link) + three independent reader codecs (same / no / other key)",
-   text="For every appended entry with links under a link key: no encoding of any link in the stored bytes, no traversable IPLD links, same-key reader recovers identical lists, verifies, loads and merges the log (also four same-key readers merging one loaded log at the same time); no-key and other-key readers obtain no links.",
+   text="For every appended entry with links under a link key: no encoding of any link in the stored bytes, no traversable IPLD links, same-key reader recovers identical lists, verifies, loads and merges the log (also four same-key readers merging one loaded log at the same time; twin entries with different pointer counts written through one codec instance); readers whose key differs in one bit (all 256), no-key and other-key readers obtain no links.",
    note="Nonce reuse / ciphertext indistinguishability are not observable by this monitor."),
  "C19": dict(cat="exploration", ref="§3 C19", tech="exhaustive axiom evaluation over a finite synthetic domain (11664 pairs, 1.26M triples) + all permutations of sampled multisets + draws from real histories",
    text="Irreflexivity, totality, antisymmetry, transitivity, causality-respect, default = hash-tiebreak on distinct clocks, first-write-wins = reverse, NoZeroes transparency, Sort permutation/determinism, independence from an entry object's history (objects compared before and then re-hashed / re-clocked compare like fresh ones). The pair/triple axioms are enumerated completely over the stated domain (exhaustive: true).",
